@@ -22,6 +22,9 @@ def _post(kind):
         if c is None or call.exc is not None:
             return
         obj = call.self
+        if c.counts["cond.compare"] >= distmon.BUDGET[0]:
+            c.count("cond.calls-beyond-budget")
+            return
         dimspec = getattr(obj, "_vmon_dimspec", None)
         if dimspec is None:
             c.count("cond.unknown-spec")
